@@ -156,11 +156,12 @@ func (pe *PolicyEngine) getPeer(p string) (k8s.Peer, error) {
 			if namespaceStr == metav1.NamespaceNone {
 				namespaceStr = metav1.NamespaceDefault
 			}
-			nsObj, ok := pe.namespacesMap[namespaceStr]
-			if !ok {
-				return nil, errors.New(netpolerrors.NotFoundNamespace)
+			// a pod whose Namespace object is not among the resources: resolve the missing namespace
+			// (with the default name label only), as the connectivity analysis (list) does
+			if err := pe.resolveSingleMissingNamespace(namespaceStr); err != nil {
+				return nil, err
 			}
-			res.NamespaceObject = nsObj
+			res.NamespaceObject = pe.namespacesMap[namespaceStr]
 			return res, nil
 		}
 		return nil, errors.New(netpolerrors.NotFoundPeerErrStr(p))
